@@ -158,7 +158,10 @@ LitDicts == LET a == CHOOSE x \in Labels : TRUE
 Init == o = [s \in Slots |-> Fresh(Kinds[s])] /\ op = <<"init">>
 Small(r) == Len(r.ts) <= MaxTerms
 Operand(j, lit) == IF j = 0 THEN lit ELSE ItemsOf(o[j].ts)
-Step(s, r, name) == LET rr == r IN Small(rr) /\ o' = [o EXCEPT ![s] = rr] /\ op' = name
+\* TLC's integers are 32-bit: a history is only continued from objects whose coefficients are small enough that no single
+\* operation (a cube at most) can overflow
+CoefsSmall == \A q \in Slots : \A i \in 1..Len(o[q].ts) : o[q].ts[i][2] <= 100 /\ o[q].ts[i][2] >= -100
+Step(s, r, name) == CoefsSmall /\ (LET rr == r IN Small(rr) /\ o' = [o EXCEPT ![s] = rr] /\ op' = name)
 
 DoSetItem(s, k, v) == KeyOK(o[s].kind, k) /\ Step(s, SetItemR(o[s], k, v), <<"setitem", s, k, v>>)
 DoAugAdd(s, k, v) == KeyOK(o[s].kind, k) /\ Step(s, AugAddR(o[s], k, v), <<"augadd", s, k, v>>)
